@@ -24,6 +24,17 @@ Proof. vm_compute. repeat split. Qed.
 Example w0_inv : Inv w0.
 Proof. apply reachable_inv. apply inv_init_vc. Qed.
 
+(* the hypotheses of reachable_invD are satisfiable: a history with list, scalar and (consistent) ndarray operands *)
+Example w0_invD :
+  InvD (np_run [SetAttr "X" (OArr [3] DFloat [PFlt (FHalf 1); PFlt (FHalf 2); PFlt (FHalf 3)]%Z) None;
+                SetItem (KSlice "F" (Some 10%Z) (Some 11%Z) None) (li [7; 8]%Z);
+                SetAttr "values" (OArr [2; 3] DInt [PInt 1; PInt 2; PInt 3; PInt 4; PInt 5; PInt 6]%Z) None] w0).
+Proof.
+  apply reachable_invD.
+  - repeat constructor.
+  - apply reachable_invD; [repeat constructor|apply invD_init_vc].
+Qed.
+
 (* ---- NumPy's casts raise only ValueError / TypeError / OverflowError *)
 Lemma np_cast_classes py d v e :
   np_cast py d v = Raise e -> e = ValueError \/ e = TypeError \/ e = OverflowError.
